@@ -111,6 +111,30 @@ def run(chk):
         if [id(e) for e in c2.select(d)] != [id(e) for e in c.select(d)]:
             bad.append({'what': 'the unpickled selector selects other elements', 'pattern': p})
         sv.purge()
+    # ---------------- (a2) the compiled object does not alias what the caller passed in
+    xml = gen.build_doc('xml', [('e', 'r', None, None, [], [('e', 'circle', None, gen.SVG, [], []), ('e', 'circle', None, 'urn:other', [], []),
+                                                            ('e', 'div', None, None, [], [('e', 'p', None, None, [], [])])])])
+    for pat in ('svg|circle', 'svg|*, :--c1', ':--c1', '*|circle:not(svg|*)'):
+        ns_arg, cu_arg = {'svg': gen.SVG}, {':--c1': 'div > *'}
+        orig_ns, orig_cu = dict(ns_arg), dict(cu_arg)
+        evaluations += 1
+        c = sv.compile(pat, ns_arg, custom=cu_arg)
+        wrapped = [ct.Namespaces(ns_arg), ct.CustomSelectors(cu_arg), ct.ImmutableDict(ns_arg)]
+        before = (snapshot(c), hash(c), [id(e) for e in c.select(xml)], [(dict(w), hash(w)) for w in wrapped])
+        ns_arg['svg'] = 'urn:other'
+        ns_arg['x'] = 'urn:x'
+        cu_arg[':--c1'] = 'p'
+        cu_arg[':--c2'] = 'r'
+        after = (snapshot(c), hash(c), [id(e) for e in c.select(xml)], [(dict(w), hash(w)) for w in wrapped])
+        fresh = sv.compile(pat + ' ', orig_ns, custom=orig_cu)         # another cache key, the original arguments
+        if before != after:
+            bad.append({'what': 'a compiled selector (or an ImmutableDict / Namespaces / CustomSelectors) changed when the caller mutated the dict '
+                                'it had passed in', 'pattern': pat, 'sequence': 'compile(pat, ns, custom=cu); ns[...] = ...; cu[...] = ...'})
+        elif dict(c.namespaces) != orig_ns or dict(c.custom) != orig_cu or c.selectors != fresh.selectors or \
+                [id(e) for e in c.select(xml)] != [id(e) for e in fresh.select(xml)]:
+            bad.append({'what': 'after the caller mutated its dicts the cached selector no longer equals a fresh compile of the original arguments',
+                        'pattern': pat})
+        sv.purge()
     # ---------------- (b) equality iff equal keys
     def key(r):
         return (r.choice(['p', 'div', 'p.a', ':--c', 'a|b', 'p ']), r.choice([None, {'a': 'u1'}, {'a': 'u2'}, {'a': 'u1', 'b': 'u2'}, {'b': 'u2', 'a': 'u1'}]),
